@@ -232,12 +232,18 @@ def execute_stream(stream, cases, workers):
     run.outs = run_impls(stream, cases, workers)
     # model ops
     all_ops, spans = [], []
-    for c, o in zip(cases, run.outs):
+    same_error = set()
+    for idx0, (c, o) in enumerate(zip(cases, run.outs)):
         try:
             ops = stream.ops(c, o) or []
         except Exception as e:  # harness bug: surfaces as a correspondence problem, with detail
             ops = []
-            run.disagreements.append((c, 'harness could not encode op: %r' % (e,), []))
+            if isinstance(o, ImplError) and err_kind(e) == o.get('error'):
+                # the harness's reference computation (oracle table) fails exactly like the implementation did:
+                # nothing to compare; whether that error is acceptable is decided by holds()
+                same_error.add(idx0)
+            else:
+                run.disagreements.append((c, 'harness could not encode op: %r' % (e,), []))
         spans.append((len(all_ops), len(all_ops) + len(ops)))
         all_ops.extend(ops)
     run.model_ops = len(all_ops)
@@ -245,6 +251,8 @@ def execute_stream(stream, cases, workers):
     retried = 0
     for idx, (c, o, (a, b)) in enumerate(zip(cases, run.outs, spans)):
         d, fs = _judge(stream, c, o, results[a:b])
+        if idx in same_error:
+            d = 'skip:oracle computation raised the same error as the implementation'
         ops_c = all_ops[a:b]
         if _looks_like_timeout(o, fs, d if not (isinstance(d, str) and d.startswith('skip:')) else None) and retried < 8:
             # A time-out may be spurious (on this image fork() inside multiprocessing.Pool occasionally stalls in a
